@@ -62,7 +62,7 @@ NAMES = list(G.HELPERS)
 
 
 # ---------------------------------------------------------------------------------- plan
-_WEIGHT = {"crc": 2.0, "fold": 2.0, "count_set_bits": 0.5, "count_clear_bits": 0.5, "cond": 0.5, "one_hot": 0.6}
+_WEIGHT = {"crc": 2.0, "fold": 2.0, "count_set_bits": 1.5, "count_clear_bits": 1.5, "cond": 0.5, "one_hot": 0.6}
 
 
 def plan(tier):
@@ -274,6 +274,8 @@ def _check(case):
                 f"{h.expr(c)} with a = {_show(kinds, v)}: result {text}   [variant {h.variant(c)}; config {c}]")
 
     nontrivial = False
+    seen = {"P": set(), "T": set()}  # valuations observed at a level / with a wrong value there
+    wrong = {"P": set(), "T": set()}
     cnt(f"cases.all.{name}")
     try:
         # ---------------------------------------------------------------- level P
@@ -295,7 +297,9 @@ def _check(case):
                 exp = h.ref(c, v)
                 bad = _observe(r, exp, allow_qualified=True)
                 p_done += 1
+                seen["P"].add(v)
                 if bad:
+                    wrong["P"].add(v)
                     finding("P", bad[0], v, bad[1])
                 elif h.nontrivial(c, v, exp):
                     nontrivial = True
@@ -338,7 +342,9 @@ def _check(case):
                         nonconst += 1
                         continue
                     t_done += 1
+                    seen["T"].add(v)
                     if bad:
+                        wrong["T"].add(v)
                         finding("T", bad[0], v, bad[1])
                     elif h.nontrivial(c, v, exp):
                         nontrivial = True
@@ -349,23 +355,165 @@ def _check(case):
                     out.labels.append("T_ok")
                     cnt(f"cases.T.{name}")
 
-        # ---------------------------------------------------------------- level S (structural)
-        if int(out.identity, 16) % 3 == 0:
+        # ---------------------------------------------------------------- level S (simulated)
+        s_done = 0
+        if name in S_ALWAYS or int(out.identity, 16) % 3 != 2:
+            cnt(f"cases.S_tried.{name}")
             try:
                 vhdl = compile_entity(mod.Sim)
-                out.labels.append("S_compiled")
-                cnt(f"cases.S.{name}")
-                if not re.search(r"\bo(_\d+)*\s*:\s*out\b", vhdl):
-                    out.labels.append("S_ports_missing")
             except Rejected as r:
+                vhdl = None
                 out.labels.append(f"S_rejected:{r.exc_type}")
+            if vhdl is not None:
+                out.labels.append("S_compiled")
 
-        if p_done == 0 and t_done == 0:
+                def s_level(v):
+                    agree = "".join(lv for lv in ("P", "T") if v in seen[lv] and v not in wrong[lv])
+                    return "S!=" + agree if agree else "S"
+
+                runner = _sim_crc if name == "crc" else _sim_comb
+                s_done, s_nontrivial = runner(out, h, name, c, kinds, vals, vhdl, s_level, finding)
+                cnt("S_calls", s_done)
+                if s_done:
+                    out.labels.append("S_ok")
+                    cnt(f"cases.S.{name}")
+                    nontrivial = nontrivial or s_nontrivial
+
+        if p_done == 0 and t_done == 0 and s_done == 0 and out.status == "ok":
             out.status = "rejected"
         out.nontrivial = nontrivial
         return out
     finally:
         unload_module(mod)
+
+
+S_ALWAYS = {"count_set_bits", "count_clear_bits", "crc", "is_one_hot", "select", "apply_mask"}  # no P and/or no T level
+S_LIMIT = 1024
+
+
+def _open_sim(out, vhdl, inputs):
+    """analyse + elaborate; static errors / unsupported constructs are never violations"""
+    from cv.vhdl.analyze import analyse
+    from cv.vhdl.sim import Blocked, Sim
+
+    d = analyse(vhdl)
+    if d.errors:
+        out.status = "blocked_by_static"
+        for e in d.errors[:3]:
+            out.labels.append(f"static:{e.rule}:{str(e.msg)[:70]}")
+        return None
+    if d.unsupported:
+        out.status = "blocked"
+        out.labels.append(f"blocked:{str(d.unsupported)[:80]}")
+        return None
+    try:
+        return Sim(d, top="Sim", inputs=inputs)
+    except Blocked as b:
+        out.status = "blocked"
+        out.labels.append(f"blocked:{str(b)[:80]}")
+        return None
+
+
+def _poke_val(kind, raw):
+    return H.to_signed(raw, kind[1]) if kind[0] == "s" else raw
+
+
+def _spread(vals, limit):
+    if len(vals) <= limit:
+        return vals
+    idx = sorted({(i * (len(vals) - 1)) // (limit - 1) for i in range(limit)})
+    return [vals[i] for i in idx]
+
+
+def _cmp_ports(sim, outs, exp):
+    """None or (kind, text): simulated result ports against the expected normal form"""
+    for n, ty, kind, path in outs:
+        e = exp
+        for i in path:
+            e = e[1][i]
+        got = sim.get(n)
+        if got is None:
+            return "undefined", f"port {n} = {sim.get_str(n)}"
+        if kind == "bv":
+            if int(got) != e[2]:
+                return "value", f"port {n} = {int(got):0{e[1]}b}, expected {e[2]:0{e[1]}b}"
+        elif kind == "num":
+            if int(got) != e[1]:
+                return "value", f"port {n} = {int(got)}, expected {e[1]}"
+        else:
+            if int(got) != e[1]:
+                return "value", f"port {n} = {int(got)}, expected {e[1]}"
+    return None
+
+
+def _sim_comb(out, h, name, c, kinds, vals, vhdl, s_level, finding):
+    from cv.vhdl.values import SimError
+
+    outs = G.sim_shape(name, c)
+    v0 = vals[0]
+    try:
+        sim = _open_sim(out, vhdl, {f"i{k}": _poke_val(kd, x) for k, (kd, x) in builtins.enumerate(zip(kinds, v0))})
+    except SimError as e:
+        finding(s_level(v0), "sim_error", v0, f"VHDL run-time error while settling: {e}")
+        return 0, False
+    if sim is None:
+        return 0, False
+    done = 0
+    nontrivial = False
+    for v in _spread(vals, S_LIMIT):
+        try:
+            if kinds:
+                sim.poke(**{f"i{k}": _poke_val(kd, x) for k, (kd, x) in builtins.enumerate(zip(kinds, v))})
+        except SimError as e:
+            finding(s_level(v), "sim_error", v, f"VHDL run-time error: {e}")
+            break
+        exp = h.ref(c, v)
+        bad = _cmp_ports(sim, outs, exp)
+        done += 1
+        if bad:
+            finding(s_level(v), bad[0], v, "simulated " + bad[1])
+        elif h.nontrivial(c, v, exp):
+            nontrivial = True
+    return done, nontrivial
+
+
+def _sim_crc(out, h, name, c, kinds, vals, vhdl, s_level, finding):
+    """clocked wrapper: clear, then feed the message k bits per rising edge (a final partial chunk with last=1)"""
+    from cv.vhdl.values import SimError
+
+    L, k = c["L"], c["k"]
+    zero = {"clk": 0, "clear": 0, "last": 0}
+    zero.update({f"d{i}": 0 for i in range(k)})
+    try:
+        sim = _open_sim(out, vhdl, zero)
+    except SimError as e:
+        finding("S", "sim_error", vals[0], f"VHDL run-time error while settling: {e}")
+        return 0, False
+    if sim is None:
+        return 0, False
+    done = 0
+    nontrivial = False
+    for v in _spread(vals, 192):
+        try:
+            sim.clock("clk", clear=1, last=0)
+            for off in range(0, L, k):
+                chunk = list(v[off:off + k])
+                part = len(chunk) < k
+                chunk += [0] * (k - len(chunk))
+                sim.clock("clk", clear=0, last=int(part), **{f"d{i}": x for i, x in builtins.enumerate(chunk)})
+        except SimError as e:
+            finding(s_level(v), "sim_error", v, f"VHDL run-time error: {e}")
+            break
+        exp = h.ref(c, v)
+        got = sim.get("o")
+        done += 1
+        if got is None:
+            finding(s_level(v), "undefined", v, f"simulated port o = {sim.get_str('o')}")
+        elif int(got) != exp[2]:
+            finding(s_level(v), "value", v, f"simulated port o = {int(got):0{exp[1]}b}, expected {exp[2]:0{exp[1]}b}")
+        elif h.nontrivial(c, v, exp):
+            nontrivial = True
+    return done, nontrivial
 
 
 def _show(kinds, v):
